@@ -3,6 +3,7 @@ package props
 import (
 	"context"
 	"fmt"
+	"runtime"
 	"sort"
 	"strings"
 
@@ -119,3 +120,5 @@ func semanticEqual(got, want *descriptorpb.FileDescriptorProto, types *protoregi
 func prototextFormatWith(m proto.Message, types *protoregistry.Types) string {
 	return prototext.MarshalOptions{Multiline: true, Resolver: types}.Format(m)
 }
+
+func runtimeGosched() { runtime.Gosched() }
